@@ -122,16 +122,33 @@ class _LCOp(_Backend):
     op = None
     loop_needs_confirmation = True
 
-    SHAPES = [((), ()), ((0,), ()), ((), (1, 2)), ((1,), (1,)), ((1,), (0, 1, -1)), ((0, 1, -1), (1,)), ((0, 2), (1, -3)), ((-1, -2, 3), (-2, 3, 4))]
+    @staticmethod
+    def optional_cfg(cfg):
+        return cfg.get("shape") == "arbitrary finite maps"
+
+    # ... the last two: the SAME variables on both sides, inserted in a different order
+    SHAPES = [((), ()), ((0,), ()), ((), (1, 2)), ((1,), (1,)), ((1,), (0, 1, -1)), ((0, 1, -1), (1,)), ((0, 2), (1, -3)), ((-1, -2, 3), (-2, 3, 4)),
+              ((1, 2), (2, 1)), ((0, 1, -1), (-1, 0, 1))]
 
     def configs(self, tier):
         # the unbounded proof (loop invariants) and, next to it, the same clauses on concrete key sets with
         # symbolic coefficients: no invariant is involved there, so a rewritten loop is still decided
-        return [dict(shape="arbitrary finite maps")] + [dict(shape="keys", a=list(x), b=list(y)) for x, y in self.SHAPES]
+        out = [dict(shape="arbitrary finite maps")] + [dict(shape="keys", a=list(x), b=list(y)) for x, y in self.SHAPES]
+        if self.module == ZKIF:
+            # the derived zkinterface backends ARE this module after set_modulus: the algebra is that of the field
+            # selected NOW (coefficients may be reduced, but only modulo the current prime)
+            out += [dict(shape="keys", a=[0, 1, -1], b=[1, -1], switch=q) for q in ("bls12_381", "curve25519")]
+        return out
 
     def setup(self, c, cfg):
         m = self.mod(c)
         LC = m.LinearCombination
+        self._prime = self.prime
+        if cfg.get("switch"):
+            self._prime = gh.PRIMES[cfg["switch"]]
+            m.set_modulus(self._prime)
+            cur().p = self._prime
+            c.g.p = self._prime
         if cfg["shape"] == "keys":
             da = {k: SymInt(z3.Int("s_a%d" % i)) for i, k in enumerate(cfg["a"])}
             db = {k: SymInt(z3.Int("s_b%d" % i)) for i, k in enumerate(cfg["b"])}
@@ -165,18 +182,18 @@ class _LCOp(_Backend):
         keys = set(sa) | set(sb) | set(r.lc)
         if self.op in ("__add__", "__sub__"):
             sgn = 1 if self.op == "__add__" else -1
-            d["V.coefficients"] = And(*[modeq(co(r.lc, k), co(sa, k) + sgn * co(sb, k), self.prime) for k in keys]) if keys else True
+            d["V.coefficients"] = And(*[modeq(co(r.lc, k), co(sa, k) + sgn * co(sb, k), self._prime) for k in keys]) if keys else True
             d["V.support"] = set(r.lc) <= set(sa) | set(sb)
             d["F.operands_unchanged"] = (list(a.lc.items()) == list(sa.items()) and list(b.lc.items()) == list(sb.items())
                                          and all(a.lc[k] is sa[k] for k in sa) and all(b.lc[k] is sb[k] for k in sb))
             d["F.fresh_result"] = r is not a and r is not b and r.lc is not a.lc and r.lc is not b.lc
         elif self.op == "__mul__":
-            d["V.coefficients"] = And(*[modeq(co(r.lc, k), imul(co(sa, k), term(b)), self.prime) for k in keys]) if keys else True
+            d["V.coefficients"] = And(*[modeq(co(r.lc, k), imul(co(sa, k), term(b)), self._prime) for k in keys]) if keys else True
             d["V.support"] = set(r.lc) == set(sa)
             d["F.operands_unchanged"] = list(a.lc.items()) == list(sa.items()) and all(a.lc[k] is sa[k] for k in sa)
             d["F.fresh_result"] = r is not a and r.lc is not a.lc
         else:
-            d["V.coefficients"] = And(*[modeq(co(r.lc, k), -co(sa, k), self.prime) for k in keys]) if keys else True
+            d["V.coefficients"] = And(*[modeq(co(r.lc, k), -co(sa, k), self._prime) for k in keys]) if keys else True
             d["V.support"] = set(r.lc) == set(sa)
             d["F.operands_unchanged"] = list(a.lc.items()) == list(sa.items()) and all(a.lc[k] is sa[k] for k in sa)
             d["F.fresh_result"] = r is not a and r.lc is not a.lc
@@ -766,3 +783,48 @@ class _Libsnark(_Backend):
 for _fn in ("privval", "pubval", "zero", "one", "add_constraint", "fieldinverse", "get_modulus"):
     register(type("Libsnark_" + _fn, (_Libsnark,), dict(name="%s:%s" % (LIBSNARK, _fn), fn=_fn,
                                                         __doc__="libsnark backend %s against the assumed binding contract" % _fn)))
+
+
+class _AddConstraint(_Backend):
+    """add_constraint(v, w, y) of a recording backend: every call appends exactly this triple -- also when an earlier
+    constraint mentions the very same variables (with other coefficients), or is the very same constraint again."""
+    assigns = ("pysnark.*:constraints",)
+
+    def configs(self, tier):
+        return [dict(earlier=e) for e in ("none", "same_variables", "identical")]
+
+    def setup(self, c, cfg):
+        m = self.mod(c)
+        LC = m.LinearCombination
+        mk = lambda tag: (LC({1: SymInt(z3.Int("s_%sa" % tag)), -1: SymInt(z3.Int("s_%sb" % tag))}), LC({-1: SymInt(z3.Int("s_%sc" % tag))}),
+                          LC({0: SymInt(z3.Int("s_%sd" % tag)), 1: SymInt(z3.Int("s_%se" % tag))}))
+        m.constraints[:] = []
+        self._first = None
+        if cfg["earlier"] != "none":
+            self._first = mk("p")
+            m.add_constraint(*self._first)
+        self._args = self._first if cfg["earlier"] == "identical" else mk("q")
+        self._n0 = len(m.constraints)
+        return m.add_constraint, tuple(self._args), {}
+
+    def post(self, c, r, v, w, y):
+        m = self.mod(c)
+        cs = m.constraints
+        ok = len(cs) == self._n0 + 1 and len(cs[-1]) == 3
+        d = {"V.appends_one_constraint": ok, "V.earlier_constraint_recorded": self._n0 == (0 if c.cfg["earlier"] == "none" else 1)}
+        if ok:
+            d["V.appended_is_this_triple"] = cs[-1][0] is v and cs[-1][1] is w and cs[-1][2] is y
+            if self._first is not None:
+                d["F.earlier_constraint_untouched"] = all(a is b for a, b in zip(cs[0], self._first))
+        return d
+
+
+@register
+class AddConstraintSnarkjs(_AddConstraint):
+    name = SNARKJS + ":add_constraint"
+
+
+@register
+class AddConstraintZkif(_AddConstraint):
+    name = ZKIF + ":add_constraint"
+    module = ZKIF
